@@ -113,6 +113,8 @@ def reach(st, m, s, v):
     principle is available only through the lemma `reach_induction`."""
     g = _conn(m)
     D, R, C = g.dims
+    if getattr(g, "concrete", None) is not None:
+        return _reach_concrete(g.concrete, s, v)
     f = reach_fn(g)
     key = ("reach", g.arr.get_id(), to_z3(R).get_id(), to_z3(C).get_id())
     seen = st.env.get("__axioms__", frozenset())
@@ -134,6 +136,52 @@ def reach(st, m, s, v):
     a0, a1 = _coord(s)
     b0, b1 = _coord(v)
     return f(g.arr, to_z3(R), to_z3(C), to_z3(a0), to_z3(a1), to_z3(b0), to_z3(b1))
+
+
+def _components(conn):
+    """concrete reading of reach: connected components of the lattice graph by BFS (independent of the code under check)"""
+    _, R, C = conn.shape
+    comp = {}
+    for r0 in range(R):
+        for c0 in range(C):
+            if (r0, c0) in comp:
+                continue
+            cid = (r0, c0)
+            todo = [(r0, c0)]
+            comp[(r0, c0)] = cid
+            while todo:
+                r, c = todo.pop()
+                nbrs = []
+                if r + 1 < R and conn[0, r, c]:
+                    nbrs.append((r + 1, c))
+                if r - 1 >= 0 and conn[0, r - 1, c]:
+                    nbrs.append((r - 1, c))
+                if c + 1 < C and conn[1, r, c]:
+                    nbrs.append((r, c + 1))
+                if c - 1 >= 0 and conn[1, r, c - 1]:
+                    nbrs.append((r, c - 1))
+                for n in nbrs:
+                    if n not in comp:
+                        comp[n] = cid
+                        todo.append(n)
+    return comp
+
+
+def _reach_concrete(conn, s, v):
+    comp = _components(conn)
+    s0, s1 = _coord(s)
+    v0, v1 = _coord(v)
+    if not is_sym(s0) and not is_sym(s1):
+        if (s0, s1) not in comp:
+            return False
+        cells = [c for c, cid in comp.items() if cid == comp[(s0, s1)]]
+        return b_or(*[b_and(M.s_cmp(ast.Eq(), v0, a), M.s_cmp(ast.Eq(), v1, b)) for a, b in cells])
+    out = []
+    for (a, b), cid in comp.items():
+        for (p, q), cid2 in comp.items():
+            if cid == cid2:
+                out.append(b_and(M.s_cmp(ast.Eq(), s0, a), M.s_cmp(ast.Eq(), s1, b), M.s_cmp(ast.Eq(), v0, p), M.s_cmp(ast.Eq(), v1, q)))
+    return b_or(*out)
 
 
 def sp_reach(interp, st, args, kwargs, node):
@@ -226,6 +274,8 @@ def sp_iff(interp, st, args, kwargs, node):
 
 def sp_card(interp, st, args, kwargs, node):
     s = args[0]
+    if isinstance(s, M.EmptySet):
+        return 0
     if isinstance(s, CSet):
         return s.card
     if isinstance(s, CDict):
@@ -296,7 +346,50 @@ def sp_grid_connected_lemma(interp, st, args, kwargs, node):
     return z3.Implies(z3.And(nonempty, proper), boundary)
 
 
+def _src(x):
+    return x.src if isinstance(x, M.Rows) else x
+
+
+def sp_distinct_rows(interp, st, args, kwargs, node):
+    """no two positions of the sequence hold equal rows"""
+    x = _src(args[0])
+    if isinstance(x, Arr):
+        x = x.rows() if x.ndim == 2 else []
+    if isinstance(x, list):
+        return b_and(*[b_not(M.compare_eq_any(interp, st, a, b)) for k, a in enumerate(x) for b in x[k + 1 :]])
+    if isinstance(x, GList):
+        out = []
+        for k, (g, a) in enumerate(x.items):
+            for h, b in x.items[k + 1 :]:
+                out.append(b_implies(b_and(g, h), b_not(M.compare_eq_any(interp, st, a, b))))
+        return b_and(*out)
+    if isinstance(x, SymList):
+        i, j = z3.Int(V.fresh_name("i")), z3.Int(V.fresh_name("j"))
+        eq = M.compare_eq_any(interp, st, x.get(i), x.get(j))
+        return z3.ForAll([i, j], z3.Implies(z3.And(i >= 0, j > i, j < to_z3(x.length)), z3.Not(to_z3(eq))))
+    raise Outside("distinct_rows of " + type(x).__name__, node)
+
+
+def sp_nrows(interp, st, args, kwargs, node):
+    return M.sym_len(interp, st, args[0], node)
+
+
+def sp_all_cands(interp, st, args, kwargs, node):
+    """all_cands(rows, m, lambda g, v: ...): conjunction over the first m candidates (guard, value) of a guarded list"""
+    x, m, clo = args
+    x = _src(x)
+    if not isinstance(x, GList) or not isinstance(m, int):
+        raise Outside("all_cands needs a guarded list and a constant count", node)
+    out = []
+    for g, v in x.items[:m]:
+        out.append(truthy_value(interp, st, M.call_value(interp, st, clo, [g, v], {}, node)))
+    return b_and(*out)
+
+
 SPEC_FUNCTIONS = {
+    "all_cands": sp_all_cands,
+    "distinct_rows": sp_distinct_rows,
+    "nrows": sp_nrows,
     "in_grid": sp_in_grid,
     "wf": sp_wf,
     "lat_adj": sp_lat_adj,
